@@ -226,6 +226,31 @@ def run(ctx, idx):
     if init is None:
         raise AnalysisError("Program.__init__ vanished")
     sn = K.self_name(init)
+    ctx.rule("C19.d", "The request is taken as given: the `libraries` argument of Program.__init__ / from_source reaches the selection unchanged; a default may stand in only for an omitted argument (`is None`), never for a falsy one - `libraries or DEFAULT` turns an explicit empty request into the three EEMS CSV libraries.")
+    n_req = 0
+    for m_ in (init, prog.methods.get("from_source")):
+        if m_ is None:
+            continue
+        params_ = [a.arg for a in m_.node.args.args if a.arg.startswith("librar")]
+        for pn in params_:
+            n_req += 1
+            node0 = getattr(m_, "node_orig", None) or m_.node
+            bad_ = None
+            for x_ in ast.walk(node0):
+                if isinstance(x_, ast.BoolOp) and isinstance(x_.op, ast.Or) and isinstance(x_.values[0], ast.Name) and x_.values[0].id == pn:
+                    bad_ = x_
+                if isinstance(x_, (ast.If, ast.IfExp, ast.While)):
+                    t_ = x_.test
+                    while isinstance(t_, ast.UnaryOp) and isinstance(t_.op, ast.Not):
+                        t_ = t_.operand
+                    if isinstance(t_, ast.Name) and t_.id == pn:
+                        bad_ = x_
+                    if isinstance(t_, ast.Call) and isinstance(t_.func, ast.Name) and t_.func.id in ("len", "bool") and t_.args and isinstance(t_.args[0], ast.Name) and t_.args[0].id == pn:
+                        bad_ = x_
+            ctx.ob("C19.d", "%s::request-taken-as-given(%s)" % (m_.key, pn), K.rel(m_), (bad_ or node0).lineno, bad_ is None,
+                   "`%s` is replaced by a default only when it is None, if at all" % pn if bad_ is None else
+                   "`%s` replaces a falsy `%s` by a default: a program asked for with no libraries (`()` / `[]`) gets the default libraries' commands instead of none" % (K.src(bad_)[:60], pn))
+    ctx.floor("C19.d", "library request parameters", n_req, 2)
     # the comprehension filtering Command.get_commands()
     sel = None
     for n in own_nodes(init.node):
